@@ -853,7 +853,8 @@ def job_nested(tier, k, njobs):
     res = Result()
     for form in FORMS:
         # quick: inputs of length <= 2, three argument combinations per form; thorough: length <= 3, every combination
-        n = 2 if tier == 'quick' else 3
+        # (dictionaries: <= 2 keys in both tiers)
+        n = 2 if tier == 'quick' or form.recv in ('dict', 'dict2') else 3
         us = [u for u in units(form, tier) if u[1] is None or (len(u[1]) <= n and (len(u) < 3 or len(u[2]) < n))]
         us = us[k::njobs] if form.recv != 'none' else (us if k == 0 else [])
         for unit in us:
